@@ -3,10 +3,13 @@
 
    A vector is the content of the private member `ones`: the list of coordinates that
    are 1.  Every operation below follows the corresponding member function. *)
-From Coq Require Export List Arith Bool.
+From Coq Require Export List Arith Bool Sorted.
 Export ListNotations.
 
 Definition vec := list nat.
+
+(* canonical form: strictly increasing (used by specifications and proofs only) *)
+Definition sorted (v : vec) : Prop := StronglySorted lt v.
 
 (* operator+ : the two-pointer merge loop, equal indices cancel (1 + 1 = 0) *)
 Fixpoint vadd (u : vec) : vec -> vec :=
